@@ -150,4 +150,89 @@ theorem C15_source_sequence_init_numsteps (X : Ext) (src : Val) (n : Val) :
     Gen.c15oSeqNumStepsSrc.run X [.record [("_source", .record [("number_of_steps", n)])]] = .ok n := by
   constructor <;> simp only [Gen.c15oSeqInitSrc, Gen.c15oSeqNumStepsSrc] <;> pylite_eval [dictSet]
 
+/-- **`FieldDataSequence.__iter__` is the model's `iterSeq`** (FcModel/Seq.lean), for EVERY source state — in particular whatever
+    cursor an abandoned earlier iteration left behind — and every sufficient fuel: the source is RESET first, then every step
+    `0, 1, …, n-1` is yielded exactly once, in order (`get` after every successful `step`), and the source is left where `iterSeq`
+    says; an EMPTY sequence raises `IndexError` at the first `get`.  Assumptions: `SrcExt` (the source's `reset / step / get`
+    are the cursor machine). -/
+theorem C15_source_sequence_iter {X : Ext} {fuel : Nat} (hX : SrcExt X fuel) (s : Src) (hfuel : s.n ≤ fuel + 1) :
+    Gen.c15oSeqIterSrc.runSelf X [seqSelfV s] =
+      match allSome (iterSeq s).1 with
+      | some items => .ok (.none, items.map stepV, seqSelfV (iterSeq s).2)
+      | none => .raise "IndexError" := by
+  have hreset := hX.hreset
+  have hstep := hX.hstep
+  have hget := hX.hget
+  have hfl := hX.hfuel
+  simp only [srcV] at hreset hstep hget
+  rw [runSelf_eq_obsFlow X _ _ "v0" _ rfl]
+  simp only [Gen.c15oSeqIterSrc, seqSelfV, srcV, iterSeq]
+  by_cases hn : 0 < s.n
+  · have hg0 : (s.reset).get = some 0 := by simp [Src.get, Src.reset, hn]
+    have hget0 : X ".get!" [.record [("n", .int s.n), ("cur", .int 0)]] =
+        .ok (.list [stepV 0, .record [("n", .int s.n), ("cur", .int 0)]]) := by
+      have := hget ⟨s.n, 0⟩
+      simpa [Src.get, hn] using this
+    have hstep0 : X ".step!" [.record [("n", .int s.n), ("cur", .int 0)]] =
+        .ok (.list [.bool (decide (1 < s.n)), .record [("n", .int s.n), ("cur", .int 1)]]) := by
+      have := hstep ⟨s.n, 0⟩
+      simpa [Src.step] using this
+    simp only [Src.reset] at hg0
+    orch_eval [hreset, hget0, hstep0, hfl, recordSet, Src.reset, hg0, allSome, indexOf]
+    generalize hw : whileLoop _ _ _ _ = r
+    have key : ∃ (st' : St) (items : List Nat) (tf : Src), r = .next st' ∧ (iterLoop ⟨s.n, 0⟩).1 = items.map some ∧
+        st'.out = [stepV 0] ++ items.map stepV ∧
+        (st'.env.lookup "v0" = some (seqSelfV (tf.step).1) ∧ st'.env.lookup "v4" = some (.bool (tf.step).2)) ∧
+        (tf.step).1 = (iterLoop ⟨s.n, 0⟩).2 := by
+      rw [← hw]
+      refine whileLoop_iterLoop _ _
+        (fun t st => st.env.lookup "v0" = some (seqSelfV (t.step).1) ∧ st.env.lookup "v4" = some (.bool (t.step).2))
+        ?_ ?_ fuel ⟨s.n, 0⟩ _ ?_ ?_
+      · rintro t st ⟨i0, i4⟩
+        simp [i4, Res.bind, truthy_bool]
+      · rintro t st ⟨i0, i4⟩ hb
+        have hlt : t.cur + 1 < t.n := by simpa [Src.step] using hb
+        have hg : X ".get!" [.record [("n", .int t.n), ("cur", .int (t.cur + 1 : Nat))]] =
+            .ok (.list [stepV (t.cur + 1), .record [("n", .int t.n), ("cur", .int (t.cur + 1 : Nat))]]) := by
+          have := hget ⟨t.n, t.cur + 1⟩
+          simpa [Src.get, hlt] using this
+        have hs := hstep ⟨t.n, t.cur + 1⟩
+        simp only [Src.step] at hs i0 i4
+        simp only [seqSelfV, srcV] at i0
+        push_cast at hg hs i0
+        orch_eval [i0, i4, hg, hs, recordSet, indexOf, seqSelfV, srcV, Src.step, stepV]
+        all_goals first | rfl | congr
+      · simp [List.lookup, seqSelfV, srcV, Src.step]
+      · simp; omega
+    obtain ⟨st', items, tf, rfl, h2, h3, ⟨i0, i4⟩, h5⟩ := key
+    simp [obsFlow, i0, h2, allSome_map_some, h3, h5, stepV, seqSelfV, srcV]
+  · have hn0 : s.n = 0 := by omega
+    have hg0 : (s.reset).get = none := by simp [Src.get, Src.reset, hn0]
+    have hget0 : X ".get!" [.record [("n", .int s.n), ("cur", .int 0)]] = .raise "IndexError" := by
+      have := hget ⟨s.n, 0⟩
+      simpa [Src.get, hn0] using this
+    simp only [Src.reset] at hg0
+    orch_eval [hreset, hget0, recordSet, Src.reset, hg0, allSome, indexOf, obsFlow]
+
+/-- RE-ITERATION: what `__iter__` yields (and where it leaves the source) depends only on the NUMBER of steps, not on the cursor
+    an earlier — completed or abandoned — iteration left behind: the source is reset at the start of every iteration.  In
+    particular iterating the same sequence object twice yields the same steps twice. -/
+theorem C15_source_sequence_reiter {X : Ext} {fuel : Nat} (hX : SrcExt X fuel) (s s' : Src) (hn : s'.n = s.n)
+    (hfuel : s.n ≤ fuel + 1) :
+    Gen.c15oSeqIterSrc.runSelf X [seqSelfV s'] = Gen.c15oSeqIterSrc.runSelf X [seqSelfV s] := by
+  rw [C15_source_sequence_iter hX s hfuel, C15_source_sequence_iter hX s' (by omega)]
+  have : iterSeq s' = iterSeq s := by simp [iterSeq, Src.reset, hn]
+  rw [this]
+
+/-- … the second of two consecutive full iterations starts from the state the first one left and yields the same items -/
+theorem C15_source_sequence_iter_twice {X : Ext} {fuel : Nat} (hX : SrcExt X fuel) (s : Src) (hfuel : s.n ≤ fuel + 1) :
+    Gen.c15oSeqIterSrc.runSelf X [seqSelfV (iterSeq s).2] = Gen.c15oSeqIterSrc.runSelf X [seqSelfV s] := by
+  refine C15_source_sequence_reiter hX s (iterSeq s).2 ?_ hfuel
+  have h : ∀ t : Src, (iterLoop t).2.n = t.n := by
+    intro t
+    induction t using iterLoop.induct with
+    | case1 t hlt ih => rw [iterLoop]; simp only [hlt, dite_true]; rw [ih]; simp [Src.step]
+    | case2 t hlt => rw [iterLoop]; simp [hlt, Src.step]
+  simp [iterSeq, h, Src.reset]
+
 end Fc
